@@ -2,11 +2,16 @@
 
 RESTAKE_ASSUME = [
     "L1 handler layer: messages go through app.MsgServiceRouter() on a branched context; signatures/ante handlers are not exercised",
-    "validators stay bonded with share/token rate 1 (no slashing, no jailing); unbonding completion is outside the history",
-    "environment installed with keeper setters on the run context: staking MaxEntries=1000, restake allowed denoms, feeds params, "
-    "a high-supply second denom (8*2^63 ubig per account) minted through the bank keeper",
+    "share/token rate 1 (no slashing); unbonding completion is outside the history; validators v1, v2 (3 and 2 units of consensus power, "
+    "all self-delegated) get a positive MinSelfDelegation and may be jailed by their operators o1, o2 - in the middle of a block (status still "
+    "Bonded) and across the end-block validator-set update - and unjailed; v3 is never jailed",
+    "total power is the code's: staking.GetDelegatorBonded sums the delegations to all validators whatever their status (SDK 0.50) + allowed "
+    "stakes; the trace check compares it with the model's sum after every step",
+    "environment installed with keeper setters on the run context: staking MaxEntries=1000, validators' MinSelfDelegation, restake "
+    "allowed denoms, feeds params, a high-supply second denom (3*2^63 ubig per actor) minted through the bank keeper",
     "DeactivateVault and SetLockedPower (vaults k1,k2) are called as keeper API inside a cache context, the way a vault-owning module would",
-    "amounts near 2^63/2^64 are logged through an order- and sum-preserving map (hi*2^63+lo -> hi*1000000+lo)",
+    "amounts near 2^63/2^64 are logged through an order- and sum-preserving map (hi*2^63 + mid*10^6 + lo -> hi*10^8 + mid*10^4 + lo, "
+    "|mid|,|lo| < 5000)",
 ]
 
 PROPS = {
@@ -20,7 +25,9 @@ PROPS = {
         trace=dict(tla="Restake_Trace.tla", cfg="Restake_Trace_C16.cfg"),
         rule="scripts = TLC -simulate walks of Restake.tla (accounts / validators / vaults by index) + seeded random scripts whose "
              "amounts are resolved against the real state at the boundary (exactly the removable amount, one more, all, all+1, "
-             "the total power +-1, values around 2^63 and 2^64); a script is non-trivial if its recorded trace contains a rejected "
+             "the total power +-1, values around 2^63 and 2^64) + every third random script a jailing history (operators holding locks on "
+             "their self-delegation, partial / full self-undelegation around MinSelfDelegation, other delegators removing locked delegations "
+             "from the validator jailed earlier in the same block and in later blocks, unjail); a script is non-trivial if its recorded trace contains a rejected "
              "unstake / undelegation / redelegation or an accepted lock update; distinct = SHA-256 of the abstract script",
         assumptions=RESTAKE_ASSUME,
     ),
